@@ -97,6 +97,8 @@ def main(c):
             c.count(1)
             if abs(fd - df) > 1e-4 * max(1.0, abs(df)) + 1e-6 * abs(df) ** 2:
                 nbad += 1
+                if len(c.violations) >= 12:
+                    continue
                 c.report("langevin:%s:derivative:%r" % (nm, y), "%s approximation at y = %r: AndDerivative returns %r, the finite difference of the value is %r" % (
                     nm, y, df, fd), {"approximation": nm, "y": y, "df": df, "finite_difference": fd}, True)
     if nbad:
